@@ -75,6 +75,7 @@ WEXPORT int64_t w_json_copy_scalar(int kind, uint64_t val, const uint8_t* s, siz
       r |= ((o.size() == n) && (n == 0 || memcmp(o.data(), s, n) == 0)) ? 32 : 0;
       r |= (copy.as_string().size() == n + 1) ? 64 : 0;
     }
+    if (describe_kind(assigned) != describe_kind(orig)) return r; // (reported by bit 4) do not format a value of the wrong kind
     if (kind >= 3) return r; // float text is kernel 3 (%g is not modelled here), string text is kernel 4
     int64_t w = w_copy_out(assigned.serialize(0x01), out, cap); // hex ints: no decimal digit generation involved
     if (w < 0) return w;
